@@ -322,6 +322,56 @@ def generate(rng, npackets, upper=False, start_id=0):
     return ops, meta
 
 
+def clean_fields(n, side, anchor, fields, in_dir):
+    """the same packet with the coordinates on the faces named by the entry classification set
+    EXACTLY (propagate / compute_optical_depth do not move the position onto the faces): lower
+    face = anchor, upper face = the largest double p with p - anchor <= extent both in exact
+    arithmetic (extent = side) and in the code's doubles (extent = n * cell_size)"""
+    from fractions import Fraction
+    f = list(fields)
+    off = OFFS[in_dir]
+    for a in range(3):
+        if off[a] == -1:
+            f[a] = anchor[a]
+        elif off[a] == 1:
+            cs = side[a] / n[a]
+            p = anchor[a] + n[a] * cs
+            while p - anchor[a] > n[a] * cs or Fraction(p) - Fraction(anchor[a]) > Fraction(side[a]):
+                p = math.nextafter(p, -math.inf)
+            f[a] = p
+    return f
+
+
+def gen_variants(rng, ntriples, start_id):
+    """the three traversals of DensitySubGrid on the same packet: interact, propagate,
+    compute_optical_depth (ids id, id+1, id+2)"""
+    ops, meta = [], {}
+    pid = start_id
+    made = 0
+    while made < ntriples:
+        if rng.random() < 0.2:
+            n, side, anchor, pal, mul, add, pk = gen_lattice(rng)
+            packets = [(fields, in_dir, 1, ("lattice",) * 3) for fields, in_dir in pk]
+            style = "lattice"
+        else:
+            n, side, anchor, style = gen_block(rng)
+            pal, mul, add = gen_cells(rng, style == "physical")
+            packets = []
+            for _ in range(rng.choice([1, 2, 4])):
+                fields, in_dir, m = gen_packet(rng, n, side, anchor, pal, style == "physical", upper=rng.random() < 0.1)
+                packets.append((fields, in_dir, 0, m))
+        ops.append(blk_line(n, side, anchor))
+        ops.append(cells_line(pal, mul, add))
+        for fields, in_dir, ex, m in packets:
+            f = clean_fields(n, side, anchor, fields, in_dir)
+            for k, kind in enumerate(("pkt", "prp", "cod")):
+                ops.append(kind + pkt_line(f, in_dir, pid + k, ex)[3:])
+                meta[pid + k] = m + (style,)
+            pid += 3
+            made += 1
+    return ops, meta
+
+
 # ------------------------------------------------------------------------------- comparison
 
 def parse_pkt(line):
@@ -340,6 +390,19 @@ def parse_pkt(line):
             "tau": m.group(6), "nv": int(m.group(7)), "visits": visits}
 
 
+def parse_var(line):
+    """'prp|cod out=.. fin=.. pos=a b c tau=t' -> dict"""
+    line = vlib.strip_branch(line)
+    m = re.match(r"(prp|cod) out=(-?\d+) fin=(\d) pos=(\S+) (\S+) (\S+) tau=(\S+)", line)
+    if not m:
+        return None
+    return {"kind": m.group(1), "out": m.group(2), "fin": m.group(3), "pos": [m.group(4), m.group(5), m.group(6)],
+            "tau": m.group(7)}
+
+
+KINDS = ("pkt", "prp", "cod")
+
+
 class Comparer:
     def __init__(self, ops):
         self.ctx_of = {}       # packet id -> (blk line, cells line)
@@ -350,7 +413,7 @@ class Comparer:
                 blk = op
             elif op.startswith("cells"):
                 cells = op
-            elif op.startswith("pkt"):
+            elif op.startswith(KINDS):
                 self.ctx_of[pkt_id(op)] = (blk, cells)
         self.ties_accepted = 0
         self.nvals = 0
@@ -382,6 +445,22 @@ class Comparer:
 
     def __call__(self, a, b, op):
         b = vlib.strip_branch(b)
+        if op.startswith(("prp", "cod")):
+            A, B = parse_var(a), parse_var(b)
+            if A is None or B is None:
+                return False
+            w = op.split()
+            tau_target = vlib.bits2f(w[7])
+            L = self.scale(op)
+            if not (A["kind"] == B["kind"] and A["out"] == B["out"] and A["fin"] == B["fin"]):
+                if self.rat_tie(op):
+                    self.ties_accepted += 1
+                    return True
+                return False
+            ok = all(self.val(x, y, REL, REL * L) for x, y in zip(A["pos"], B["pos"]))
+            if A["kind"] == "prp":
+                return self.val(A["tau"], B["tau"], 0.0, TAU_REL * tau_target) and ok
+            return self.val(A["tau"], B["tau"], REL, 0.0) and ok
         if not op.startswith("pkt"):
             if op.startswith("blk"):
                 wa, wb = a.replace("=", " ").split(), b.replace("=", " ").split()
@@ -517,6 +596,62 @@ def run(ctx):
                 for t in ml.split(" #")[1].split(","):
                     ctx.branch("upper-" + t)
 
+    # 2b. the 'variants' stream: interact, propagate and compute_optical_depth on the same packet
+    #     (positions exactly on the faces of the entry classification).  Model vs code for each of
+    #     the three, and the cross statements of the theorems evaluated on the IMPLEMENTATION:
+    #     propagate = interact without counters (propagate_eq_interact), interact stops inside iff
+    #     its target <= what compute_optical_depth adds (interact_stops_iff_cod).
+    var_ops, var_meta = gen_variants(ctx.rng, ctx.budget(1200, 100000), start_id=2 * 10 ** 7)
+    cmp_var = Comparer(var_ops)
+    nmis_v, impl_v, model_v, orc_v = ctx.correspond("variants", h, vlib.driver("drv_c02"), var_ops, cmp=cmp_var,
+                                                    group_start=lambda op: op.startswith("blk"),
+                                                    oracle_key=lambda what, grp: "%s:%s" % ({"pkt": "march", "prp": "propagate", "cod": "cod"}[grp[-1][:3]],
+                                                                                           re.sub(r"\(.*?\)", "", what.split()[0])))
+    cross = {"triples": 0, "propagate_equals_interact": 0, "stop_iff_cod": 0, "near_target": 0}
+    for i, op in enumerate(var_ops):
+        if op.startswith(KINDS) and i < len(model_v):
+            ctx.count()
+            ctx.branch("gen-variant-" + op[:3])
+            if " #" in model_v[i]:
+                for t in model_v[i].split(" #")[1].split(","):
+                    if t.startswith(("prp-", "cod-")):
+                        ctx.branch(t)
+        if not (op.startswith("pkt") and i + 2 < len(impl_v) and var_ops[i + 1].startswith("prp")):
+            continue
+        I, P, C = parse_pkt(impl_v[i]), parse_var(impl_v[i + 1]), parse_var(impl_v[i + 2])
+        if not (I and P and C):
+            continue
+        cross["triples"] += 1
+        w = op.split()
+        tt = vlib.bits2f(w[7])
+        L = cmp_var.scale(op)
+        blk, cells = cmp_var.ctx_of[pkt_id(op)]
+        close = lambda a, b, tol: abs(vlib.bits2f(a) - vlib.bits2f(b)) <= tol
+        same = (I["out"] == P["out"] and all(close(x, y, 1.e-9 * L) for x, y in zip(I["pos"], P["pos"]))
+                and close(I["tau"], P["tau"], 1.e-9 * tt + 1.e-9 * abs(vlib.bits2f(I["tau"]))))
+        if same:
+            cross["propagate_equals_interact"] += 1
+        elif not cmp_var.rat_tie(op):
+            ctx.violation("cross:propagate-differs-from-interact",
+                          "propagate and interact disagree on the same packet: interact %s / propagate %s" % (impl_v[i][:200], impl_v[i + 1][:200]),
+                          {"stream": "variants", "ops": [blk, cells, op, var_ops[i + 1]], "impl": [impl_v[i], impl_v[i + 1]]})
+        added = vlib.bits2f(C["tau"]) - tt
+        near = abs(added - tt) <= 1.e-9 * max(tt, added) or not math.isfinite(added)
+        inside = I["out"] == "0"
+        if near:
+            cross["near_target"] += 1
+        elif inside == (tt <= added):
+            cross["stop_iff_cod"] += 1
+            if not inside and not (C["out"] == I["out"] and all(close(x, y, 1.e-9 * L) for x, y in zip(I["pos"], C["pos"]))) and not cmp_var.rat_tie(op):
+                ctx.violation("cross:compute_optical_depth-leaves-elsewhere",
+                              "interact and compute_optical_depth leave the block at different places: %s / %s" % (impl_v[i][:200], impl_v[i + 2][:200]),
+                              {"stream": "variants", "ops": [blk, cells, op, var_ops[i + 2]], "impl": [impl_v[i], impl_v[i + 2]]})
+        elif not cmp_var.rat_tie(op):
+            ctx.violation("cross:stop-inside-iff-line-optical-depth",
+                          "interact %s although compute_optical_depth adds %.17g for a target of %.17g" % ("stops inside" if inside else "leaves", added, tt),
+                          {"stream": "variants", "ops": [blk, cells, op, var_ops[i + 2]], "impl": [impl_v[i], impl_v[i + 2]]})
+    ctx.cov["cross_checks_on_implementation"] = cross
+
     # 3. exact run of the same definitions (Rat) on a sample: ties, theorem statements, deviation
     pk = [op for op in ops if op.startswith("pkt")]
     nrat = ctx.budget(400, 6000)
@@ -525,25 +660,50 @@ def run(ctx):
     for op in pk[::step][:nrat]:
         blk, cells = cmp.ctx_of[pkt_id(op)]
         rat_ops += [blk, cells, op]
+    vk = [op for op in var_ops if op.startswith(KINDS)]
+    nvar = ctx.budget(240, 3000)
+    vstep = max(1, (len(vk) // 3) // max(1, nvar // 3))
+    for j in range(0, len(vk) - 2, 3 * vstep):
+        if j // (3 * vstep) >= nvar // 3:
+            break
+        blk, cells = cmp_var.ctx_of[pkt_id(vk[j])]
+        rat_ops += [blk, cells, vk[j], vk[j + 1], vk[j + 2]]
+    cmp.ctx_of.update(cmp_var.ctx_of)
     rc, out, err = vlib.run_exe(vlib.driver("drv_c02"), "\n".join(rat_ops) + "\n", args=["rat"])
     ratl = [l for l in out.split("\n") if l]
     model_by_id = {pkt_id(op): ml for op, ml in zip(ops, model) if op.startswith("pkt")}
-    st = {"packets": 0, "near_ties": 0, "theorem_instances_ok": 0, "same_cells_as_float": 0, "max_rel_dev_path_float_vs_exact": 0.0}
+    model_by_id.update({pkt_id(op): ml for op, ml in zip(var_ops, model_v) if op.startswith("pkt")})
+    st = {"packets": 0, "near_ties": 0, "theorem_instances_ok": 0, "same_cells_as_float": 0, "max_rel_dev_path_float_vs_exact": 0.0,
+          "propagate": 0, "compute_optical_depth": 0, "premises_hold": 0, "premises_fail": {}}
     if rc != 0 or len(ratl) != len(rat_ops):
         ctx.broken_obligation("exact (Rat) run of the model failed: rc=%d %s" % (rc, err[-300:]))
     else:
         for op, rl in zip(rat_ops, ratl):
-            if not op.startswith("pkt"):
+            if not op.startswith(KINDS):
                 continue
             st["packets"] += 1
+            st["propagate"] += op.startswith("prp")
+            st["compute_optical_depth"] += op.startswith("cod")
             tie = " tie=1" in rl
             st["near_ties"] += tie
+            # the premises of the theorems, evaluated exactly on this input
+            hyp = re.search(r" hyp=(\S+)", rl)
+            hyp = hyp.group(1) if hyp else "missing"
+            if hyp == "ok":
+                st["premises_hold"] += 1
+            else:
+                for hname in hyp.split(","):
+                    st["premises_fail"][hname] = st["premises_fail"].get(hname, 0) + 1
             if rl.endswith("exact=ok"):
                 st["theorem_instances_ok"] += 1
-            else:
+            elif hyp == "ok":
                 blk, cells = cmp.ctx_of[pkt_id(op)]
-                ctx.broken_obligation("exact run: the statements of the C02 theorems fail on the Rat instantiation of the model (%s)" % rl.split("exact=")[-1],
+                ctx.broken_obligation("exact run: the statements of the C02 theorems fail on the Rat instantiation of the model although their premises hold (%s)" % rl.split("exact=")[-1],
                                       json.dumps({"ops": [blk, cells, op], "rat": rl}))
+            else:
+                st["conclusion_fails_outside_premises"] = st.get("conclusion_fails_outside_premises", 0) + 1
+            if not op.startswith("pkt"):
+                continue
             R = parse_pkt(re.sub(r" tie=.*$", "", re.sub(r"( v \S+ \S+)", r"\1 0 0 0 0 0", rl)))
             Fm = parse_pkt(model_by_id.get(pkt_id(op), ""))
             if R and Fm:
@@ -559,17 +719,19 @@ def run(ctx):
                 elif not tie:
                     ctx.notes.append("Float and exact run visit different cells without a 4-ulp tie: " + op)
     ctx.cov["exact_run"] = st
-    tot = cmp.nvals + cmp_up.nvals
-    ctx.cov["bit_exact_rate"] = round((cmp.nexact + cmp_up.nexact) / tot, 6) if tot else None
+    tot = cmp.nvals + cmp_up.nvals + cmp_var.nvals
+    ctx.cov["bit_exact_rate"] = round((cmp.nexact + cmp_up.nexact + cmp_var.nexact) / tot, 6) if tot else None
     ctx.cov["values_compared"] = tot
-    ctx.cov["max_rel_dev_impl_vs_model"] = max(cmp.maxrel, cmp_up.maxrel)
+    ctx.cov["max_rel_dev_impl_vs_model"] = max(cmp.maxrel, cmp_up.maxrel, cmp_var.maxrel)
     ctx.cov["tolerance"] = {"path/estimators/position": REL, "remaining_tau_relative_to_target": TAU_REL,
                             "discrete": "identical unless the exact run shows a 4-ulp tie"}
-    ctx.cov["ties_accepted"] = cmp.ties_accepted + cmp_up.ties_accepted
+    ctx.cov["ties_accepted"] = cmp.ties_accepted + cmp_up.ties_accepted + cmp_var.ties_accepted
     ctx.cov["generated_table"] = "lean/CMacVerif/Gen/TravelDirectionsC02.lean (regenerated from the headers on this run)"
     # coverage gate (thorough): every branch of the model must have been taken
     need = ["in-inside", "in-face", "in-edge", "in-corner", "static0", "static1", "static2", "out-inside", "out-face",
-            "out-edge", "out-corner", "leave1", "leave2", "leave3", "stop-surplus", "stop-exact", "tau0", "zero-path", "dir-neg", "dir-pos"]
+            "out-edge", "out-corner", "leave1", "leave2", "leave3", "stop-surplus", "stop-exact", "tau0", "zero-path", "dir-neg", "dir-pos",
+            "prp-in-inside", "prp-in-face", "prp-in-edge", "prp-in-corner", "prp-out-inside", "prp-out-face", "prp-out-edge", "prp-out-corner",
+            "prp-stop-surplus", "prp-leave1", "prp-leave2", "prp-leave3", "cod-out-face", "cod-out-edge", "cod-out-corner", "cod-passes1", "cod-passes2+"]
     missing = [b for b in need if ctx.cov["branch_histogram"].get(b, 0) == 0]
     if missing:
         ctx.notes.append("coverage gate: model branches never taken: " + ", ".join(missing))
